@@ -253,3 +253,21 @@ fn k_obs_reenter__emit_in_error() {
   assert!(log.is(&[EV_E | id as u32]), "obs.reenter: something was delivered from inside the error callback");
   kani::cover!(true, "harness reaches its end");
 }
+
+// ---- clones of an Observer are handles on ONE set of slots, in both directions and also for what is installed after the clone was
+// taken (StreamController::new and the subjects install the teardown on the handle they are given, while the party that later calls
+// unsubscribe() holds a clone taken earlier)
+#[kani::proof]
+fn k_obs_clone__shares_every_slot_also_for_later_changes() {
+  let log = Log::new();
+  let ob = rec_observer(log);
+  let early = ob.clone();
+  ob.set_on_unsubscribe(move || log.push(EV_T));
+  assert!(abs(&early).t, "obs.clone: a teardown installed after a clone was taken is not visible through that clone");
+  let x: u8 = kani::any();
+  early.next(x);
+  early.unsubscribe();
+  assert!(log.is(&[EV_N | x as u32, EV_T]), "obs.clone: unsubscribing through an earlier clone did not run the teardown installed later (once)");
+  assert!(!ob.is_subscribed() && !abs(&ob).t, "obs.clone: the original still holds slots after a clone unsubscribed");
+  kani::cover!(true, "harness reaches its end");
+}
